@@ -368,6 +368,24 @@ def run_case(case, rec, mon=None):
                 if not np.array_equal(y5, y1) or not np.array_equal(view, y1):
                     mon.v("Dither in_place=True on a strided view differs from in_place=False under the same seed (layout %d)" % lay, check="in_place_values", op="dither",
                           dtype=dtype, shape=[n], coeff=coeff)
+        # a long recording (around 2^20 samples: two minutes of telephone speech): reproducible under the seed like any other, and the
+        # noise is the generator's sequence for that seed scaled by coeff
+        nl = 2 ** 20 + (case["idx"] % 3) - 1
+        xl = np.zeros(nl, dtype=np.float32 if case["idx"] % 2 else np.float64)
+        xl.setflags(write=False)
+        dl = P.Dither(0.5)
+        np.random.seed(s)
+        y1 = dl.apply(xl)
+        np.random.seed(s)
+        y2 = dl.apply(xl)
+        np.random.seed(s)
+        ref = (np.random.normal(0, 0.5, nl)).astype(xl.dtype)
+        rec.ev()
+        rec.count("dither_seed_pairs_on_long_recordings")
+        if not np.array_equal(y1, y2):
+            mon.v("Dither not reproducible under np.random.seed(%d) on a recording of %d samples" % (s, nl), check="dither_seed", op="dither", dtype=str(xl.dtype), shape=[nl], coeff=0.5)
+        elif not np.array_equal(y1, ref):
+            mon.v("Dither on a recording of %d samples does not add the seeded generator's normal sequence" % nl, check="dither_seed", op="dither", dtype=str(xl.dtype), shape=[nl], coeff=0.5)
         rec.sample({"kind": kind, "last": {"n": n, "dtype": dtype, "coeff": coeff, "np_seed": s}})
     elif kind == "dither_moments":
         N = case["N"]
